@@ -381,7 +381,7 @@ func (p *VipnodePool) requestHosts(ctx context.Context, nodeID string, numReques
 	}
 
 	var hosts []store.Node
-	if numRequestHosts == 0 {
+	if numRequestHosts <= 0 {
 		// Nothing left to do
 		return hosts, nil
 	}
@@ -425,6 +425,11 @@ func (p *VipnodePool) requestHosts(ctx context.Context, nodeID string, numReques
 			remotes = append(remotes, hostService{
 				node, remote,
 			})
+			if len(remotes) >= numRequestHosts {
+				// We asked the store for extra candidates to make up for the
+				// ones we skip, don't use more than were requested.
+				break
+			}
 		} else {
 			// TODO: Good time to mark the host as inactive? Or would that mess
 			// with assumptions about some grace period of activity we
